@@ -305,6 +305,69 @@ impl<'a, 'info> RevertibleMarket<'a, 'info> {
     }
 }
 
+/// Verification hooks (runtime monitors in `/verif`): public forwarding wrappers only.
+#[cfg(gmsol_verif)]
+impl<'a, 'info> RevertibleMarket<'a, 'info> {
+    /// Public wrapper of [`RevertibleMarket::new`] (virtual inventories disabled).
+    pub fn verif_new(
+        market: &'a AccountLoader<'info, Market>,
+        event_authority: &'a AccountInfo<'info>,
+        bump: u8,
+    ) -> Result<Self> {
+        Self::new(market, None, EventEmitter::new(event_authority, bump))
+    }
+
+    /// Public wrapper of `with_order_fee_discount_factor`.
+    pub fn verif_with_order_fee_discount_factor(self, discount: u128) -> Self {
+        self.with_order_fee_discount_factor(discount)
+    }
+
+    /// Public wrapper of `set_swap_pricing_kind`.
+    pub fn verif_set_swap_pricing_kind(&mut self, kind: SwapPricingKind) {
+        self.set_swap_pricing_kind(kind)
+    }
+
+    /// Read access to the buffered view of a pool.
+    pub fn verif_pool(&self, kind: PoolKind) -> Option<Pool> {
+        self.pool(kind).ok().copied()
+    }
+
+    /// Write access to the buffered view of a pool.
+    pub fn verif_pool_mut(&mut self, kind: PoolKind) -> gmsol_model::Result<&mut Pool> {
+        self.pool_mut(kind)
+    }
+
+    /// Read access to the buffered view of the clocks.
+    pub fn verif_clocks(&self) -> &Clocks {
+        self.clocks()
+    }
+
+    /// Write access to the buffered view of the clocks.
+    pub fn verif_clocks_mut(&mut self) -> &mut Clocks {
+        self.clocks_mut()
+    }
+
+    /// Read access to the buffered view of the other state.
+    pub fn verif_other(&self) -> &OtherState {
+        self.other()
+    }
+
+    /// Write access to the buffered view of the other state.
+    pub fn verif_other_mut(&mut self) -> &mut OtherState {
+        self.other_mut()
+    }
+
+    /// Public wrapper of `next_trade_id`.
+    pub fn verif_next_trade_id(&mut self) -> Result<u64> {
+        self.next_trade_id()
+    }
+
+    /// Public wrapper of `update_fees_state`.
+    pub fn verif_update_fees_state(&mut self, prices: &Prices<u128>) -> Result<()> {
+        self.update_fees_state(prices)
+    }
+}
+
 impl Revertible for RevertibleMarket<'_, '_> {
     fn commit(self) {
         let Self {
